@@ -506,7 +506,10 @@ class Dispatcher(actor.RallyActor):
     def receiveMsg_ActorSystemConventionUpdate(self, convmsg, sender):
         if not convmsg.remoteAdded:
             self.logger.warning("Remote Rally node [%s] exited during NodeMechanicActor startup process.", convmsg.remoteAdminAddress)
-            self.start_sender(actor.BenchmarkFailure("Remote Rally node [%s] has been shutdown prematurely." % convmsg.remoteAdminAddress))
+            self.send(
+                self.start_sender,
+                actor.BenchmarkFailure("Remote Rally node [%s] has been shutdown prematurely." % convmsg.remoteAdminAddress),
+            )
         else:
             remote_ip = convmsg.remoteCapabilities.get("ip", None)
             self.logger.info("Remote Rally node [%s] has started.", remote_ip)
